@@ -372,6 +372,115 @@ class StackValueContract(Monitor):
         self._check(cpu)
 
 
+class DeclaredTypes(Monitor):
+    """With -g: every value stored into a scalar, record field or static-array element of a frame or of the global
+    area has the declared type of that location (layout model rebuilt from the symbol tables in the debug info)."""
+    name = 'declared-types'
+    CT = {'integer': CellType.INTEGER, 'long': CellType.LONG, 'single': CellType.SINGLE, 'double': CellType.DOUBLE,
+          'string': CellType.STRING}
+
+    def __init__(self):
+        super().__init__()
+        self.frame_layout = {}     # code_start -> {idx: CellType}
+        self.global_layout = None
+        self.unknown = 0
+
+    def expand(self, ctx, t, out, base):
+        """Append expected cell types of one variable of type t starting at cell index base; returns size."""
+        if t.is_array:
+            static = not t.is_nodim_array
+            if static:
+                try:
+                    static = all(d.lbound.is_const and d.ubound.is_const for d in t.array_dims)
+                except Exception:
+                    static = False
+            if not static:
+                out[base] = CellType.REFERENCE
+                return 1
+            n = 1
+            for d in t.array_dims:
+                n *= int(round(d.ubound.eval())) - int(round(d.lbound.eval())) + 1
+            hdr = 3 + 2 * len(t.array_dims)
+            for k in range(1, hdr):
+                out[base + k] = CellType.LONG
+            pos = base + hdr
+            for _ in range(n):
+                pos += self.expand(ctx, t.array_base_type, out, pos)
+            return pos - base
+        if t.is_user_defined:
+            pos = base
+            for ft in ctx.user_types[t.user_type_name].fields.values():
+                pos += self.expand(ctx, ft, out, pos)
+            return pos - base
+        ct = self.CT.get(t.name)
+        if ct is not None:
+            out[base] = ct
+        return 1
+
+    def start(self, cpu):
+        di = cpu.module.debug_info
+        if di is None:
+            return
+        try:
+            ctx = type('Ctx', (), {'user_types': di.user_types})()
+            g = {}
+            pos = 0
+            for name, t in di.global_vars.items():
+                pos += self.expand(ctx, t, g, pos)
+            self.global_layout = g
+            routines = {'_main': di.main_routine}
+            for name, rec in di.routines.items():
+                routines[name] = rec.node.routine
+            frames = [d for d in (cpu.decoded or []) if d[1] == 'frame']
+            # main's frame is the first frame instruction; the others are found through the routine records
+            starts = {}
+            if frames:
+                starts['_main'] = frames[0][0] + frames[0][3]
+            for name, rec in di.routines.items():
+                d = cpu.instr_at.get(rec.start_offset)
+                if d and d[1] == 'frame':
+                    starts[name] = rec.start_offset + d[3]
+            for name, routine in routines.items():
+                if name not in starts:
+                    continue
+                lay = {}
+                pos = 0
+                for pn in routine.params:
+                    lay[pos] = CellType.REFERENCE
+                    pos += 1
+                for vn, t in routine.local_vars.items():
+                    pos += self.expand(ctx, t, lay, pos)
+                self.frame_layout[starts[name]] = lay
+        except Exception as e:  # noqa: BLE001  - layout could not be rebuilt: the monitor stays silent and says so
+            self.frame_layout = {}
+            self.global_layout = None
+            self.unknown = -1
+
+    def on_cell_write(self, cpu, seg, idx, old, new):
+        if new is None or not isinstance(new, CellValue):
+            return
+        if seg is cpu.globals_segment:
+            lay = self.global_layout
+        elif isinstance(seg, CallFrame):
+            lay = self.frame_layout.get(seg.code_start)
+            if lay is not None and idx >= seg.original_size:
+                return          # temporaries of by-value arguments
+        else:
+            return
+        if lay is None:
+            return
+        want = lay.get(idx)
+        if want is None:
+            self.unknown += 1
+            return
+        self.count += 1
+        if new.type != want:
+            d = cpu.instr_at.get(cpu.prev_pc)
+            self.report(f'C03:stored-value-not-of-declared-type:{want.name}<-{new.type.name}',
+                        f'cell {idx} of {seg!r} is declared {want.name}, {d[1] if d else "?"} at {cpu.prev_pc:#x} stores '
+                        f'{new.type.name}')
+
+
 def default_monitors():
     return [InstrBoundary(), SegmentBounds(), CellMonomorphism(), ReadsWriteNothing(), BranchCoverage(),
-            StmtBoundaryDepth(), StackValueContract()]
+            StmtBoundaryDepth(), StackValueContract(), DeclaredTypes()]
